@@ -8,7 +8,9 @@ from vf.ref import data
 
 ACCEPT, REJECT, DONT_CARE = "ACCEPT", "REJECT", "DONT_CARE"
 
-VERDICT_WS = set(" \t\n\r\f\v\u00a0")
+# Unicode White_Space property (what "whitespace" means beyond doubt); Python's str.isspace additionally
+# counts the information separators U+001C..U+001F, which stay a DONT_CARE zone.
+VERDICT_WS = set(" \t\n\r\f\v\u0085\u00a0\u1680\u2028\u2029\u202f\u205f\u3000") | {chr(c) for c in range(0x2000, 0x200B)}
 DIGITS = "0123456789"
 UPPER = "ABCDEFGHIJKLMNOPQRSTUVWXYZ"
 ALNUM = DIGITS + UPPER
